@@ -74,6 +74,16 @@ Theorem C15_resample_outcomes :
 Proof. exact resample_spec. Qed.
 Print Assumptions C15_resample_outcomes.
 
+(* a pad whose left AND right sample counts are both refused, with different exception classes: the code raises the
+   left one; [pad_other_refusal] names the class the right side would raise. Either way the object is untouched - the
+   property does not pin which of two refusals fires, and the tie accepts both classes *)
+Theorem C15_pad_two_refusals :
+  forall (s : spectrum) (e0 e1 : Qc) (sm : option Qc) (md : padmode) (e' : errkind),
+  pad_other_refusal s e0 e1 sm md = Some e' ->
+  exists e, pad s e0 e1 sm md = (s, Some e) /\ e <> e' /\ (e' = ValueError \/ e' = IndexError).
+Proof. exact pad_other_refusal_spec. Qed.
+Print Assumptions C15_pad_two_refusals.
+
 (* what a refused call leaves behind: the object as it was - except crop above the range, which has emptied the
    object (exactly the samples inside the range) before it raises IndexError *)
 Theorem C15_refused_calls :
